@@ -1,6 +1,9 @@
 """C11 fact extractor (fail-closed): src/mxlpy/meta/codegen_mxlpy.py + sympy_tools.py -> facts.
 
 What is extracted
+  * HOW a definition is stored: `functions[key] = (expr, args)` (RegOverwrite, the snapshot) or
+    `name = _register_fn(functions, key, expr, args)` (RegFresh, fixes/C11-function-name-collisions.diff;
+    then _positional_fn / _register_fn / _parameter_names must have the modelled text too);
   * the KEY under which each kind of slot stores its definition in the `functions` dict
     (`init_<fn>` for initial assignments of variables / parameters, `<fn>` for derived and rate
     functions, `<rxn>_stoich_<fn>` for computed coefficients) -- as an enumerated scheme;
@@ -47,17 +50,34 @@ def _find(tree: ast.Module, name: str) -> ast.FunctionDef | None:
 
 
 class _KeyBlanker(ast.NodeTransformer):
-    """Replace every key expression of a `functions[...] = ...` write by the constant KEY and
-    record the expressions in source order.  `fn_name = <expr>` followed by `functions[fn_name]`
-    counts as the expression assigned to fn_name."""
+    """Replace every key expression of a `functions[...] = ...` write (or of a
+    `... = _register_fn(functions, <key>, ...)` call) by the constant KEY and record the expressions
+    in source order, together with the way of storing.  `fn_name = <expr>` followed by
+    `functions[fn_name]` counts as the expression assigned to fn_name."""
 
     def __init__(self) -> None:
         self.keys: list[str] = []
+        self.modes: list[str] = []
         self._pending: str | None = None
 
     def visit_Assign(self, node: ast.Assign):  # noqa: N802
         if len(node.targets) == 1:
             t = node.targets[0]
+            v = node.value
+            if (
+                isinstance(t, ast.Name)
+                and isinstance(v, ast.Call)
+                and isinstance(v.func, ast.Name)
+                and v.func.id == "_register_fn"
+                and len(v.args) == 4
+                and not v.keywords
+                and isinstance(v.args[0], ast.Name)
+                and v.args[0].id == "functions"
+            ):
+                self.keys.append(ast.unparse(v.args[1]))
+                self.modes.append("fresh")
+                v.args[1] = ast.Constant("KEY")
+                return node
             if isinstance(t, ast.Name) and t.id == "fn_name":
                 self._pending = ast.unparse(node.value)
                 node.value = ast.Constant("KEY")
@@ -70,6 +90,7 @@ class _KeyBlanker(ast.NodeTransformer):
                 else:
                     self.keys.append(ast.unparse(s))
                     t.slice = ast.Constant("KEY")
+                self.modes.append("overwrite")
                 return node
         return self.generic_visit(node)
 
@@ -77,13 +98,16 @@ class _KeyBlanker(ast.NodeTransformer):
         return self.generic_visit(node)
 
 
-def normalised(fn: ast.FunctionDef | None) -> tuple[str, list[str]]:
+def normalised(fn: ast.FunctionDef | None) -> tuple[str, list[str], list[str]]:
     if fn is None:
-        return "<missing>", []
+        return "<missing>", [], []
     b = _KeyBlanker()
     out = b.visit(_strip_doc(fn))
     ast.fix_missing_locations(out)
-    return ast.unparse(out), b.keys
+    return ast.unparse(out), b.keys, b.modes
+
+
+FRESH_HELPERS = ("_positional_fn", "_register_fn", "_parameter_names")
 
 
 def extract(repo=None) -> tuple[dict[str, str], dict[str, str]]:
@@ -95,6 +119,7 @@ def extract(repo=None) -> tuple[dict[str, str], dict[str, str]]:
         "der_key": "KsUnknown",
         "rxn_key": "KsUnknown",
         "sto_key": "KsUnknown",
+        "register": "RegUnknown",
         "codegen_shape": "false",
         "symrepr_shape": "false",
     }
@@ -105,6 +130,7 @@ def extract(repo=None) -> tuple[dict[str, str], dict[str, str]]:
     except (OSError, SyntaxError):
         return facts, texts
     keys: dict[str, list[str]] = {}
+    modes: list[str] = []
     for name, tree in (
         ("_codegen_variable", t1),
         ("_codegen_parameter", t1),
@@ -113,8 +139,14 @@ def extract(repo=None) -> tuple[dict[str, str], dict[str, str]]:
         ("_to_symbolic_repr", t1),
         ("generate_mxlpy_code", t1),
         ("sympy_to_python_fn", t2),
+        *((h, t1) for h in FRESH_HELPERS),
     ):
-        texts[name], keys[name] = normalised(_find(tree, name))
+        if name in FRESH_HELPERS:  # pinned verbatim: no key expression is blanked out inside the helpers
+            fn = _find(tree, name)
+            texts[name], keys[name] = ("<missing>" if fn is None else ast.unparse(_strip_doc(fn))), []
+            continue
+        texts[name], keys[name], md = normalised(_find(tree, name))
+        modes += md
     kv, kp, kg = keys["_codegen_variable"], keys["_codegen_parameter"], keys["generate_mxlpy_code_from_symbolic_repr"]
     if len(kv) == 1:
         facts["var_key"] = KEY_SCHEMES.get(kv[0], "KsUnknown")
@@ -127,10 +159,18 @@ def extract(repo=None) -> tuple[dict[str, str], dict[str, str]]:
     try:
         from harness import c11_shapes
 
-        exp = c11_shapes.SHAPES
+        exp_all = {"RegOverwrite": c11_shapes.SHAPES, "RegFresh": c11_shapes.SHAPES_FRESH}
     except Exception:  # noqa: BLE001
-        exp = {}
-    cg = ("_codegen_variable", "_codegen_parameter", "generate_mxlpy_code_from_symbolic_repr", "sympy_to_python_fn")
+        exp_all = {}
+    # the way of storing: all five writes the same way; the helper functions exist exactly in the fresh form
+    if len(modes) == 5 and set(modes) == {"overwrite"} and all(texts[h] == "<missing>" for h in FRESH_HELPERS):
+        facts["register"] = "RegOverwrite"
+    elif len(modes) == 5 and set(modes) == {"fresh"}:
+        facts["register"] = "RegFresh"
+    exp = exp_all.get(facts["register"], {})
+    cg = ["_codegen_variable", "_codegen_parameter", "generate_mxlpy_code_from_symbolic_repr", "sympy_to_python_fn"]
+    if facts["register"] == "RegFresh":
+        cg += list(FRESH_HELPERS)
     sr = ("_fn_to_symbolic_repr", "_to_symbolic_repr", "generate_mxlpy_code")
     if exp and all(texts[n] == exp.get(n) for n in cg):
         facts["codegen_shape"] = "true"
@@ -139,11 +179,13 @@ def extract(repo=None) -> tuple[dict[str, str], dict[str, str]]:
     return facts, texts
 
 
-def dump_shapes() -> str:
+def dump_shapes(var: str = "SHAPES") -> str:
+    """`python -m harness.c11_extract [SHAPES|SHAPES_FRESH]` prints the dict for the tree MXLPY_VERIF_REPO points at."""
     _, texts = extract()
-    lines = ['"""Normalised text (docstrings, annotations and dict-key expressions removed) of the functions the', "C11 Gallina model was written from.  Written by `python -m harness.c11_extract`; edit only together", 'with the model (coq/mxlgen/SymRepr.v, MxlGen.v)."""', "", "SHAPES = {"]
+    lines = [f"{var} = {{"]
     for k, v in texts.items():
-        lines.append(f"    {k!r}: {v!r},")
+        if v != "<missing>":
+            lines.append(f"    {k!r}: {v!r},")
     lines.append("}")
     return "\n".join(lines) + "\n"
 
@@ -151,4 +193,4 @@ def dump_shapes() -> str:
 if __name__ == "__main__":
     import sys
 
-    sys.stdout.write(dump_shapes())
+    sys.stdout.write(dump_shapes(sys.argv[1] if len(sys.argv) > 1 else "SHAPES"))
